@@ -34,7 +34,11 @@ impl GoldenTicket {
     }
 
     pub fn deserialize_from_net(bytes: &Vec<u8>) -> GoldenTicket {
-        assert_eq!(bytes.len(), 97);
+        if bytes.len() != 97 {
+            // malformed payload from a peer: an all-zero ticket (transactions carrying such a
+            // payload are rejected by Transaction::validate)
+            return GoldenTicket::new([0; 32], [0; 32], [0; 33]);
+        }
         let target: SaitoHash = bytes[0..32].try_into().unwrap();
         let random: SaitoHash = bytes[32..64].try_into().unwrap();
         let public_key: SaitoPublicKey = bytes[64..97].try_into().unwrap();
